@@ -541,6 +541,8 @@ def run_real(mod, rng, controlled=True, force=None):
         is_async = force.get("is_async", is_async)
         maxc = force.get("maxc", maxc)
     info = dict(maxc=maxc, is_async=is_async, config=how)
+    tawazi.cfg.TAWAZI_PROFILE_ALL_NODES = rng.random() < 0.2     # a documented option that must not change any value
+    info["profile"] = tawazi.cfg.TAWAZI_PROFILE_ALL_NODES
     try:
         dags = build_real(mod, attrs, maxc, is_async)
     except BaseException as e:  # noqa: BLE001
